@@ -362,6 +362,21 @@ M("C07", "v50-map-or-mask-one-too-wide", (CF, "            .map_or(u64::MAX, |po
 M("C09", "v53-filter-map-then-strict", (LC, "(entry.f >= min_freq).then(|| elem.clone())", "(entry.f > min_freq).then(|| elem.clone())"), "R09-query", "query", base="benign/B53/patch.diff")
 M("C13", "v49-next-slot-wraps-early", (QF, "        *slot = if *slot == self.is_occupied.len() - 1 {", "        *slot = if *slot == self.is_occupied.len() - 2 {"), "R13-scan", "scan", base="benign/B49/patch.diff")
 
+# ======================================================================================= rounds 11/12 additions (slip refactorings)
+M("C20", "deser-b-range-exclusive", (HLLS, "!(4..=18).contains(&b)", "!(4..18).contains(&b)"), "R20-accepts-valid", "visit_map")
+M("C18", "gap-draw-includes-one", (RS, "let u = 1f64 - self.rng.gen_range((0.)..1.); // (0.0, 1.0]", "let u = 1f64 - self.rng.gen_range((0.)..=1.);"), "R18-no-panic", "")
+M("C18", "gap-draw-bare-half-open", (RS, "let u = 1f64 - self.rng.gen_range((0.)..1.); // (0.0, 1.0]", "let u: f64 = self.rng.gen_range((0.)..1.);"), "R18-no-panic", "ln-of-draw")
+M("C16", "v77-take-without-draining-backlog", (TD, "        sorted.append(&mut self.backlog);", "        sorted.extend(self.backlog.iter().cloned());"), "R16-conservation", "merge", base="benign/B77/patch.diff")
+M("C04", "v77-sort-by-count", (TD, "sorted.sort_by(|c1, c2| c1.mean().partial_cmp(&c2.mean()).unwrap());", "sorted.sort_by(|c1, c2| c1.count.partial_cmp(&c2.count).unwrap());"), "R04-sorted-input", "merge", base="benign/B77/patch.diff")
+M("C08", "v75-clear-transposes", (CMS, "Self::with_params_and_hasher(self.w, self.d, self.buildhasher().clone())", "Self::with_params_and_hasher(self.d, self.w, self.buildhasher().clone())"), "R19-clear-keeps-config", "", base="benign/B75/patch.diff")
+M("C02", "v75-option-min-reseeded", (CMS, "                Some(seen) => Some(seen.min(current)),", "                Some(_seen) => Some(current),"), "R02-return-min", "add_n", base="benign/B75/patch.diff")
+M("C12", "v68-snapshot-copies-wrong-bitset", (QF, "is_shifted: self.is_shifted.clone(),", "is_shifted: self.is_continuation.clone(),"), "R12-restore", "union", base="benign/B68/patch.diff")
+M("C12", "v70-map-err-without-restore", (CF, "        self.insert_internal(f, i1, i2, &mut log).map_err(|err| {\n            self.restore_state(&log);\n            err\n        })", "        self.insert_internal(f, i1, i2, &mut log).map_err(|err| {\n            if log.len() > 1 {\n                self.restore_state(&log);\n            }\n            err\n        })"), "R12-restore", "insert", base="benign/B68/patch.diff")
+M("C06", "v64-offset-range-short", (QF, "(1..=ring_mask)", "(1..ring_mask)"), "R06-quotient-transfer", "union", base="benign/B64/patch.diff")
+M("C10", "v67-displaced-entry-count-one", (CH, "            estimate\n        };", "            1\n        };"), "R10-paired", "add", base="benign/B67/patch.diff")
+M("C13", "v69-ordering-arms-swapped", (QF, "                    Ordering::Greater => break,\n                    Ordering::Less => {}", "                    Ordering::Less => break,\n                    Ordering::Greater => {}"), "R13-scan", "scan", base="benign/B69/patch.diff")
+M("C05", "v63-get-mut-wrong-slot", (RS, "if let Some(slot) = self.reservoir.get_mut(j) {", "if let Some(slot) = self.reservoir.get_mut(j / 2) {"), "R05-accept-range", "add", base="benign/B63/patch.diff")
+
 
 def main():
     out = os.path.join(os.path.dirname(os.path.abspath(__file__)), "corpus.json")
